@@ -38,7 +38,7 @@ META = {
     "level": "exploration",
     "technique": "grammar-directed and mutation generators against independent oracles (three-valued RFC 9112 start-line classifier, IMF-fixdate reader, RFC 3986 splitter + form decoder), totality monitors",
     "level_text": "Each of the eight helper groups named in the statement is executed on generated inputs (grammar-built, single-character mutations of valid forms, Unicode digits/spaces, arbitrary Unicode incl. controls, astral code points and lone surrogates, RFC 2231 parameter forms with every registered Python codec name as charset, digit runs beyond the interpreter's int limit) and judged by an oracle that shares no code with tornado; start lines are judged three-valued so only inputs whose verdict RFC 9112 fixes are gated.",
-    "level_note": "Trusts vf/refs/startline9112.py and the small readers in this module; the start-line MUST-ACCEPT class is restricted to request-targets in one of the four RFC 9112 forms built from RFC 3986 characters, everything else printable is UNSPECIFIED; stdlib ipaddress/re.escape/email.utils.parsedate_to_datetime are used as oracles (not tornado code).",
+    "level_note": "Trusts vf/refs/startline9112.py and the small readers in this module; the start-line MUST-ACCEPT class is restricted to request-targets in one of the four RFC 9112 forms built from RFC 3986 characters, everything else made of printable octets (code points up to U+00FF) is UNSPECIFIED, while any line containing a code point above U+00FF is MUST-REJECT (the grammar's alphabet is octets); stdlib ipaddress/re.escape/email.utils.parsedate_to_datetime are used as oracles (not tornado code).",
     "design_ref": "DESIGN.md §4 C43",
     "engine": "oracle",
 }
@@ -48,13 +48,14 @@ RULE = ("cases are input strings/values drawn per sub-monitor (reqline, statusli
 FLOORS = {"quick": 100000, "thorough": 3000000}
 ASSUMPTIONS = [
     "reference classifier vf/refs/startline9112.py encodes RFC 9112 §3/§4 + RFC 3986 correctly",
-    "HTTP versions other than 1.x, lenient whitespace and request-targets outside RFC 3986 are UNSPECIFIED",
+    "HTTP versions other than 1.x, lenient whitespace and request-targets made of octets outside RFC 3986 are UNSPECIFIED",
+    "a str denotes octets one code point per octet (latin-1); a line with a code point above U+00FF is outside the grammar (MUST-REJECT)",
     "url_concat inputs have ASCII netlocs, no control characters and only valid UTF-8 percent-escapes",
     "format_timestamp inputs lie in 1970-01-01 .. 9998-12-31",
     "is_valid_ip: zone ids, inet_aton short forms, bracketed or port-suffixed addresses are UNSPECIFIED",
 ]
 REQUIRED_COUNTERS = ["oracle_evals", "reqline_must_accept", "reqline_must_reject", "status_must_accept",
-                     "status_must_reject", "totality_calls", "header_rt_evals", "timestamp_evals",
+                     "status_must_reject", "reqline_must_reject_non_octet", "status_must_reject_non_octet", "totality_calls", "header_rt_evals", "timestamp_evals",
                      "url_concat_evals", "re_unescape_evals", "ip_must_accept", "ip_must_reject"]
 
 # ---------------------------------------------------------------------------------------------
@@ -136,6 +137,12 @@ def directed_cases():
     yield ("reqline", "GET / HTTP/1.1")
     yield ("reqline", "GET / HTTP/1.\u0663")
     yield ("reqline", "GET / HTTP/1.1\n")
+    # code points above U+00FF denote no octet: outside the grammar wherever they stand
+    for t in ["/\u0100", "/a\u2028b", "/a\u3000b", "/\U0001f600", "/x\ufeff", "/caf\xe9\u0301", "http://ex\u0101mple.com/", "*\u200b",
+              "/a?q=\uff11", "/\ud800"]:
+        yield ("reqline", wrap("GET " + t + " HTTP/1.1"))
+    for r in ["\u0100", "OK\u2028", "caf\xe9 \u20ac", "\U0001f600", "Not\u3000Found", "OK\udc80"]:
+        yield ("statusline", wrap("HTTP/1.1 200 " + r))
     yield ("statusline", "HTTP/1.1 200 OK")
     yield ("statusline", "HTTP/1.1 \u0662\u0660\u0660 OK")
     yield ("statusline", "HTTP/1.1 200 OK\n")
@@ -265,10 +272,59 @@ def mutate(rng, s):
     return s
 
 
+# code points above U+00FF: no octet corresponds to them (MUST-REJECT wherever they stand, see the reference's docstring)
+NON_OCTET_PICKS = ["\u0100", "\u0101", "\u017f", "\u0130", "\u212a", "\u0660", "\u0663", "\uff11", "\uff0f", "\uff21", "\u2003",
+                   "\u2028", "\u2029", "\u3000", "\u200b", "\u2060", "\ufeff", "\u20ac", "\ufffd", "\uffff", "\ud7ff", "\ue000",
+                   "\U00010000", "\U0001f600", "\U000e0020", "\U0010ffff", "\ud800", "\udfff", "\udc80", "\udcff"]
+
+
+def non_octet_char(rng):
+    r = rng.random()
+    if r < 0.45:
+        return rng.choice(NON_OCTET_PICKS)
+    if r < 0.6:
+        return chr(rng.randint(0x100, 0x17f))          # right above the latin-1 boundary
+    if r < 0.85:
+        return chr(rng.choice([rng.randint(0x100, 0xd7ff), rng.randint(0xe000, 0xffff)]))
+    return chr(rng.randint(0x10000, 0x10ffff))
+
+
+def inject_non_octet(rng, parts):
+    """parts: the components of a start line (method, sep, target, sep, version / version, sep, code, sep, reason).
+    One or two code points above U+00FF are inserted into / substituted in / appended to a chosen component (or the
+    whole line's edges); every other character of the line stays as generated."""
+    parts = list(parts)
+    for _ in range(1 if rng.random() < 0.8 else 2):
+        i = rng.randrange(len(parts))
+        comp = parts[i]
+        c = non_octet_char(rng)
+        pos = rng.randint(0, len(comp))
+        op = rng.random()
+        if op < 0.6 or not comp:
+            parts[i] = comp[:pos] + c + comp[pos:]
+        elif op < 0.9:
+            pos = min(pos, len(comp) - 1)
+            parts[i] = comp[:pos] + c + comp[pos + 1:]
+        else:
+            parts[i] = c                                # the component is nothing but the code point
+    return "".join(parts)
+
+
 def gen_reqline(rng):
     r = rng.random()
     if r < 0.04:
         return rand_text(rng, 24)
+    if r < 0.16:
+        # an otherwise well-formed (or leniently spaced) line with a code point above U+00FF somewhere
+        method = rng.choice(METHODS) if rng.random() < 0.6 else token(rng)
+        version = rng.choice(["HTTP/1.1", "HTTP/1.0", "HTTP/1." + rng.choice("0123456789"), "HTTP/2.0"])
+        sep1 = " " if rng.random() < 0.9 else rng.choice(["  ", "\t", "\x0b", "\r"])
+        sep2 = " " if rng.random() < 0.9 else rng.choice(["  ", "\t", "\x0c"])
+        parts = [method, sep1, gen_target(rng), sep2, version]
+        if rng.random() < 0.7:
+            parts = [parts[0], parts[1]] + [inject_non_octet(rng, [parts[2]])] + parts[3:]     # in the request-target
+            return "".join(parts)
+        return inject_non_octet(rng, parts)
     method = rng.choice(METHODS) if rng.random() < 0.6 else token(rng)
     version = rng.choice(["HTTP/1.1", "HTTP/1.1", "HTTP/1.0", "HTTP/1." + rng.choice("0123456789")])
     if rng.random() < 0.06:
@@ -297,6 +353,17 @@ def gen_statusline(rng):
     r = rng.random()
     if r < 0.04:
         return rand_text(rng, 24)
+    if r < 0.16:
+        version = rng.choice(["HTTP/1.1", "HTTP/1.0", "HTTP/1." + rng.choice("0123456789"), "HTTP/2.0"])
+        code = "%03d" % rng.randint(0, 999)
+        reason = rng.choice(REASONS) if rng.random() < 0.6 else "".join(
+            rng.choice(ASCII_PRINT + LATIN_HI + ["\t"]) for _ in range(rng.randint(0, 12)))
+        sep1 = " " if rng.random() < 0.9 else rng.choice(["  ", "\t", "\r"])
+        sep2 = " " if rng.random() < 0.9 else rng.choice(["  ", "\t", "\x0b"])
+        parts = [version, sep1, code, sep2, reason]
+        if rng.random() < 0.7:
+            return "".join(parts[:4]) + inject_non_octet(rng, [reason])                        # in the reason phrase
+        return inject_non_octet(rng, parts)
     version = rng.choice(["HTTP/1.1", "HTTP/1.1", "HTTP/1.0", "HTTP/1." + rng.choice("0123456789")])
     if rng.random() < 0.06:
         version = rng.choice(["HTTP/2.0", "HTTP/0.9", "http/1.1", "HTTP/1", "HTTP/1.10", "HTTP/1.\u0661",
@@ -349,9 +416,13 @@ def run_reqline(s, ctx):
                           {"line": s, "got": tuple(got), "want": info[:3]})
     elif verdict == "reject":
         ctx.count("reqline_must_reject")
+        if info == sl.NON_OCTET_WHY:
+            ctx.count("reqline_must_reject_non_octet")
         if got is not None:
             lenient_eol = s.endswith("\n") and sl.classify_request_line(s[:-1])[0] != "reject"
             mech = "reqline/trailing-LF-accepted" if lenient_eol else "reqline/invalid-line-accepted"
+            if info == sl.NON_OCTET_WHY:
+                mech = "reqline/code-point-above-U+00FF-accepted"
             ctx.violation(mech, "a request line outside every reading of the RFC 9112 grammar was accepted",
                           {"line": s, "why": info, "got": tuple(got)})
     else:
@@ -384,8 +455,11 @@ def run_statusline(s, ctx):
                               {"line": s, "got": tuple(got), "want": info})
     elif verdict == "reject":
         ctx.count("status_must_reject")
+        if info == sl.NON_OCTET_WHY:
+            ctx.count("status_must_reject_non_octet")
         if got is not None:
-            ctx.violation("statusline/invalid-line-accepted",
+            ctx.violation("statusline/code-point-above-U+00FF-accepted" if info == sl.NON_OCTET_WHY
+                          else "statusline/invalid-line-accepted",
                           "a status line outside every reading of the RFC 9112 grammar was accepted",
                           {"line": s, "why": info, "got": tuple(got)})
     else:
